@@ -79,6 +79,19 @@ class S4UCheck(dst.Check):
                           (aid, key[2])))
         return v
 
+    def sync_violations(self, plan, res, prefixes):
+        """model violations of the given classes + final state; nothing if the plan is ill-formed (shrinking artefact)"""
+        v = self.crash_violations(plan, res)
+        if any(c == 'hang' for c, _ in v):
+            return v
+        m = self.model(plan, res)
+        if m.illformed:
+            return []
+        v += [(c, msg) for c, msg in m.viol if c.startswith(tuple(prefixes))]
+        if not any(c == 'crash' for c, _ in v):
+            v += self.final_state_violations(plan, res)
+        return v
+
     def signature(self, plan, res):
         return gen.signature_of_calls(self.recs(res))
 
